@@ -199,7 +199,7 @@ def write_svg(matrix, matrix_size, out, colormap, scale=1, border=None, xmldecl=
     if need_background:
         # Additional path for the background, will be modified after
         # the SVG paths have been generated
-        coordinates[colormap[consts.TYPE_QUIET_ZONE]] = [(0, 0, width // scale)]
+        coordinates[colormap[consts.TYPE_QUIET_ZONE]] = [(0, 0, matrix_size[0] + 2 * border)]
     if not draw_transparent:
         try:
             del coordinates[None]
@@ -233,7 +233,7 @@ def write_svg(matrix, matrix_size, out, colormap, scale=1, border=None, xmldecl=
         k = colormap[consts.TYPE_QUIET_ZONE]
         paths[k] = re.sub(r'\sclass="[^"]+"', '',
                           paths[k].replace('stroke', 'fill')
-                                  .replace('"/>', f'v{height // scale}h-{width // scale}z"/>'))
+                                  .replace('"/>', f'v{matrix_size[1] + 2 * border}h-{matrix_size[0] + 2 * border}z"/>'))
     svg = ''
     if xmldecl:
         svg += '<?xml version="1.0"'
